@@ -15,7 +15,7 @@ try:
     patch = os.path.abspath(os.path.join(src, 'patch.diff'))
     demo = os.path.abspath(os.path.join(src, 'demo.py'))
     r = sh(f'git apply {patch}', cwd=wt); ran.append(('git apply', r.returncode)); assert r.returncode == 0, 'patch does not apply: ' + r.stderr
-    r = sh(f'/root/seedtools/baseline_check.py {wt}'); ran.append(('baseline with patch', r.returncode, r.stdout.strip().splitlines()[0] if r.stdout else ''))
+    r = sh(f'/verif/tools/baseline_check.py {wt}'); ran.append(('baseline with patch', r.returncode, r.stdout.strip().splitlines()[0] if r.stdout else ''))
     assert r.returncode == 0, 'baseline fails: ' + r.stdout[-500:]
     r = sh(f'PYTHONPATH={wt}/src /venv/bin/python {demo}', cwd=os.path.dirname(demo)); ran.append(('demo with patch', r.returncode))
     assert r.returncode != 0, 'demo passes with the patch'
